@@ -24,7 +24,7 @@ Print Assumptions C19_violation_is_match.
 (* Constraints are positive: a superset of a violating set violates; the empty set never does. *)
 Theorem C19_violation_monotone :
   forall cs, monotone (violates cs) /\ violates cs [] = false.
-Proof. intros cs. split. apply violates_monotone. apply violates_nil. Qed.
+Proof. exact violates_monotone_nil. Qed.
 Print Assumptions C19_violation_monotone.
 
 (* EXACTNESS, for every iteration order: the search terminates within its fuel and the list it
@@ -45,15 +45,20 @@ Theorem C19_exact_generic :
 Proof. exact compute_repairs_exact. Qed.
 Print Assumptions C19_exact_generic.
 
+(* the loop alone (the code before commit 2aecba6): sound and complete, but not exact *)
+Theorem C19_all_maximal_found :
+  forall (cs : list constraint) (F : list fact), NoDup F ->
+  exists C, candidates (violates cs) F = Some C /\
+    (forall S, In S C -> In S (sublists F) /\ violates cs S = false) /\
+    (forall M, maxrepair (violates cs) F M -> exists R0, In R0 C /\ seteq R0 M).
+Proof. exact all_maximal_found. Qed.
+Print Assumptions C19_all_maximal_found.
+
 (* every maximal repair, given as any list, is represented in the result *)
 Theorem C19_every_repair_found :
   forall cs F S, NoDup F -> maxrepair (violates cs) F S ->
   exists R S', compute_repairs (violates cs) F = Some R /\ In S' R /\ seteq S' S.
-Proof.
-  intros cs F S ND HM. destruct (repairs_exact cs F ND) as [R [HR [H1 H2]]].
-  destruct (exact_rep_of (violates cs) (violates_monotone cs) F R S (conj H1 H2) HM) as [S' [G1 G2]].
-  exists R, S'. auto.
-Qed.
+Proof. exact every_repair_found. Qed.
 Print Assumptions C19_every_repair_found.
 
 (* IAR ANSWERS.  An answer is a binding b of the goal pattern's variables (the HashMap the code
@@ -82,10 +87,7 @@ Theorem C19_unconstrained_fact_answered :
   (forall c p, In c cs -> In p c -> match_pat p f [] = None) ->
   match_pat q f [] = Some b ->
   exists A, query_with_repairs cs F q = Some A /\ In b A.
-Proof.
-  intros cs F q f b ND Hf Hu Hm. eapply conflict_free_answered; eauto.
-  apply unmatched_conflict_free. exact Hu.
-Qed.
+Proof. exact unconstrained_fact_answered. Qed.
 Print Assumptions C19_unconstrained_fact_answered.
 
 (* DETERMINISM = independence from the iteration order: two orders of the same fact set give the
@@ -128,16 +130,27 @@ Theorem C19_materialise_ends_consistent :
 Proof. exact materialise_ends_consistent. Qed.
 Print Assumptions C19_materialise_ends_consistent.
 
+(* What the final store consists of: the start set followed by inferred_so_far, without
+   repetition; the start set is the input when that is consistent, otherwise a maximal repair of
+   maximum cardinality. *)
+Theorem C19_materialise_shape :
+  forall fuel cs rules ord F ds inferred,
+  NoDup F -> (forall l, Permutation (ord l) l) ->
+  materialise fuel cs rules ord F = Some (ds, inferred) ->
+  exists base, ds = base ++ inferred /\ NoDup ds /\
+    (violates cs F = false -> base = F) /\
+    (violates cs F = true ->
+       maxrepair (violates cs) F base /\
+       forall S, maxrepair (violates cs) F S -> NoDup S -> (length S <= length base)%nat).
+Proof. exact materialise_shape. Qed.
+Print Assumptions C19_materialise_shape.
+
 (* The executable Spec used as oracle by the correspondence check enumerates the textbook objects. *)
 Theorem C19_spec_repairs :
   forall viol, monotone viol -> forall F, NoDup F -> forall S,
   (In S (max_repairs_spec viol F) <-> In S (sublists F) /\ maxrepair viol F S) /\
   (In S (max_repairs_local viol F) <-> In S (sublists F) /\ maxrepair viol F S).
-Proof.
-  intros viol mono F ND S. split.
-  - exact (max_repairs_spec_ok viol mono F S).
-  - exact (max_repairs_local_ok viol mono F S).
-Qed.
+Proof. exact spec_repairs_ok. Qed.
 Print Assumptions C19_spec_repairs.
 
 Theorem C19_spec_answers :
